@@ -490,6 +490,18 @@ func c20(c *Ctx) {
 						c.R.Bad(load.FuncName(fn)+": CABundle per webhook", c.pos(st.Pos()), "the CA bundle store is not inside a loop over the configuration's webhooks")
 						continue
 					}
+					// … of every configuration: the loop is not reserved for configurations of one particular name
+					var named []cfgx.Edge
+					for _, cf := range findCmps(fn, true, func(x, y ssa.Value) bool {
+						_, isC := cfgx.ConstString(y)
+						return isC && (hasSuffixCall(x, ".GetName") || strings.HasSuffix(x.Type().String(), "string"))
+					}) {
+						named = append(named, cf.Holds...)
+					}
+					if h := cfgx.LoopHeader(l); h != nil && len(named) > 0 {
+						only, _ := cfgx.MustCross(h.Instrs[len(h.Instrs)-1], named, nil)
+						c.R.Check(!only, load.FuncName(fn)+": CABundle for every configuration ("+strings.TrimPrefix(fullType(flow.Root(st.Addr)), "*k8s.io/api/admissionregistration/v1.")+")", c.pos(st.Pos()), "the injection loop runs for configurations of any name", "the injection loop runs only for a configuration of one particular name: every other configuration is applied with the CA bundle and service as read from disk")
+					}
 					by, w := cfgx.LoopBypass(l, map[*ssa.BasicBlock]bool{st.Block(): true}, nil, c.posf())
 					c.R.Check(!by, load.FuncName(fn)+": CABundle for every webhook ("+strings.TrimSuffix(strings.TrimPrefix(fullType(flow.Root(st.Addr)), "*k8s.io/api/admissionregistration/v1."), "")+")", c.pos(st.Pos()), "every webhook entry gets the bundle", "a webhook entry can be skipped when the CA bundle is injected", w...)
 				}
